@@ -27,7 +27,7 @@ from ..pool import HASH_CLASSES
 PROP = "C07"
 LEVEL = "exploration"
 COUNTS = {"quick": 500, "thorough": 12000}
-WALL = {"quick": 170, "thorough": 3300}
+WALL = {"quick": 900, "thorough": 6000}
 RULE = (
     "scenario = 1-4 pool documents, scan or fix, seeded rule selection (default / all rules incl. default-disabled / one rule alone / "
     "random -d), executed in 4 worlds that differ only in hash-seed class, directory-listing permutation, temp names, cold vs warm "
